@@ -88,4 +88,9 @@ TEXT = {
   "note": "as C09 (F29 also affects the bottom-up transformer)",
   "technique": "Lean 4 theorem (summary instantiation) + refinement correspondence by call-stack execution",
  },
+ "C14": {
+  "level": "proof (partial): the smashing functor over ANY base domain satisfying its per-operation laws is proved sound in Lean: C14.smash_step_sound, smash_history_sound, smash_load_sound (after any history of init / weak / strong / range stores, loads, array copies, joins, widenings every value a concrete load can return is described by the loaded variable) and smash_never_bottom_on_reachable; for array_adaptive the cell algebra is proved (adaptive_cells_cover, adaptive_written_cell_live). array_adaptive beyond the cell algebra and the meet of both array domains are decided by the refinement harness only: 8 domain variants x generated histories x adaptive parameters replayed on witness states with arrays",
+  "note": "trusted: Lean kernel; ArraySem as the meaning of array operations; sampling of witnesses; the model of array_smashing is not compared op-by-op with the code (only through the witness replay)",
+  "technique": "Lean 4 theorems (smashing functor, cell algebra) + refinement correspondence by witness replay",
+ },
 }
